@@ -20,3 +20,21 @@ let u_recon c =
   | _ -> Skip
 
 let () = register [ ("settings", u_settings); ("recon", u_recon) ]
+
+(* settings grid: lines `SET tabs tw ci crlf nlhex indenthex conthex` *)
+let settings_grid file =
+  let ic = open_in file in
+  let ok = ref 0 in
+  (try while true do
+     let l = input_line ic in
+     match String.split_on_char ' ' l with
+     | ["SET"; tabs; tw; ci; crlf; a; b; d] ->
+       let m = rs_of_config (crlf = "1") (tabs = "1") (n_of_int (int_of_string tw)) (n_of_int (int_of_string ci)) in
+       if hex_of_bytes m.rs_newline = a && hex_of_bytes m.rs_indent = b && hex_of_bytes m.rs_cont = d then incr ok
+       else Printf.printf "GRID DIFF %s\n" l
+     | _ -> ()
+   done with End_of_file -> ());
+  close_in ic;
+  Printf.printf "GRID OK %d\n" !ok
+
+let () = Common.commands := ("settings-grid", settings_grid) :: !Common.commands
